@@ -49,7 +49,7 @@ def find_decoder(py: PyRepo, fn: ast.FunctionDef, table_names):
     """the function that turns one word into a number: nested in _import_proof or at module level, it subscripts the digit tables"""
     tree = py.modules[MODULE].tree
     cands = [n for n in ast.walk(fn) if isinstance(n, ast.FunctionDef) and n is not fn] + [n for n in tree.body if isinstance(n, ast.FunctionDef)]
-    cands += [g for c in py.modules[MODULE].classes.values() for g in c.methods.values() if g is not fn and g not in cands]
+    cands += [g for c in py.modules[MODULE].classes.values() for g in c.methods.values() if g is not fn and g.name != fn.name and g not in cands]
     out = []
     for g in cands:
         used = {_tab(n.value) for n in ast.walk(g) if isinstance(n, ast.Subscript) and _tab(n.value) in table_names
@@ -188,6 +188,14 @@ def loop_weight(cf: ast.FunctionDef, lp: ast.For, ms_name: str, within=None):
             a = 0 if st_e is None else const_int(st_e)
             return None if a is None or any(isinstance(n, ast.Name) and n.id == name and isinstance(n.ctx, ast.Store) for b in lp.body for n in ast.walk(b)) \
                 else (a, 1)
+        if isinstance(it, ast.Call) and isinstance(it.func, ast.Name) and it.func.id == 'range' and not it.keywords and 1 <= len(it.args) <= 3 \
+                and isinstance(lp.target, ast.Name) and lp.target.id == name:
+            # for e in range([a,] n[, s]): e = a + s*i
+            a = 0 if len(it.args) == 1 else const_int(it.args[0])
+            s_ = 1 if len(it.args) < 3 else const_int(it.args[2])
+            if a is None or s_ is None or any(isinstance(n, ast.Name) and n.id == name and isinstance(n.ctx, ast.Store) for b in lp.body for n in ast.walk(b)):
+                return None
+            return (a, s_)
         init, stores = before_loop(name)
         steps = [(j, st) for j, st in enumerate(top) if isinstance(st, ast.AugAssign) and isinstance(st.target, ast.Name) and st.target.id == name
                  and isinstance(st.op, (ast.Add, ast.Sub)) and const_int(st.value) is not None]
@@ -209,6 +217,21 @@ def loop_weight(cf: ast.FunctionDef, lp: ast.For, ms_name: str, within=None):
         return (init * (r if j < use_at else 1), r)
 
     C, A, S = 1, 0, 0
+    # the sum may be scaled once where it is used after the loop (`ones + twenties * 20`): a constant factor of the whole sum
+    acc_name = top[use_at].target.id if isinstance(top[use_at], ast.AugAssign) else top[use_at].targets[0].id
+    scope_ = within if within is not None else cf
+    parents_ = {c: p_ for p_ in ast.walk(scope_) for c in ast.iter_child_nodes(p_)}
+    inside_ = {id(x) for x in ast.walk(lp)}
+    later = [x for x in ast.walk(scope_) if isinstance(x, ast.Name) and x.id == acc_name and isinstance(x.ctx, ast.Load) and id(x) not in inside_]
+    if len(later) == 1:
+        e_ = later[0]
+        while isinstance(parents_.get(e_), ast.BinOp) and isinstance(parents_[e_].op, ast.Mult):
+            par = parents_[e_]
+            other = par.right if par.left is e_ else par.left
+            if const_int(other) is None:
+                return None
+            C *= const_int(other)
+            e_ = par
     for f in _factors(val):
         if isinstance(f, ast.Subscript) and _tab(f.value) == ms_name:
             continue
@@ -491,6 +514,7 @@ def label_table_fresh(ctx, py: PyRepo, fn, ci, sites):
     """the number -> label table of one proof is extended in place with that proof's own label list (and becomes Proof.labels): it must
     be an object created for that proof.  A table handed out of a cache or kept on the converter is shared by every proof that gets
     it, so the labels of an earlier proof shift the numbers of a later one."""
+    fn = _sums_as_loops(fn)
     from .c16 import returned_exprs
 
     def fresh(e, scope, depth=0):
@@ -754,6 +778,14 @@ def digit_order(ctx, py: PyRepo, fn: ast.FunctionDef, names, cf):
     use_line[0] = lp.lineno
     d = direction(seq)
     use_line[0] = 10 ** 9
+    if d is None and word is not None and isinstance(it, ast.Call) and isinstance(it.func, ast.Name) and it.func.id == 'range' \
+            and isinstance(lp.target, ast.Name):
+        d = _indexed_direction(cf, lp, word, names['most-significant'])
+        if d is not None:
+            ctx.ob('digit-order', 'every-high-digit-is-read', d[2] is None,
+                   f'the high digits are read by index over {d[2]}; a word of n letters has n - 1 of them (range(0, len({word}) - 1)): '
+                   f'a digit that is not read is missing from the number', where)
+            d = d[:2]
     if d is None or exp_dir is None:
         from ..core.report import AnalysisError as _AE
         raise _AE(f'convert_to_number: cannot determine the traversal direction of `{ast.unparse(seq)}` or of the exponent')
@@ -775,6 +807,25 @@ def digit_order(ctx, py: PyRepo, fn: ast.FunctionDef, names, cf):
         if inline is None:
             rets = [r for r in ast.walk(cf) if isinstance(r, ast.Return)]
             out_ok = bool(rets) and all(isinstance(r.value, ast.Name) and r.value.id == num for r in rets)
+            if not init_ok and len(inits) == 1 and isinstance(inits[0].value, ast.Constant) and inits[0].value.value == 0 and type(inits[0].value.value) is int \
+                    and inits[0].lineno <= lp.lineno and len(rets) == 1 and isinstance(rets[0].value, ast.BinOp) and isinstance(rets[0].value.op, ast.Add):
+                # the other spelling: the high digits are summed from 0 and the low digit is added where the number is handed back
+                # (`return <ls>[last] + <sum> [* 20]`; the factor belongs to rule weights)
+                def strip(e):
+                    while isinstance(e, ast.BinOp) and isinstance(e.op, ast.Mult):
+                        e = e.left if isinstance(e.right, ast.Constant) else e.right if isinstance(e.left, ast.Constant) else None
+                    return e
+                sides = [rets[0].value.left, rets[0].value.right]
+                hi = [x for x in sides if isinstance(strip(x), ast.Name) and strip(x).id == num]
+                lo = [x for x in sides if x not in hi]
+                if len(hi) == 1 and len(lo) == 1:
+                    low = lo[0]
+                    if isinstance(low, ast.Name):
+                        ldefs = [n for n in ast.walk(scope) if isinstance(n, (ast.Assign, ast.AnnAssign)) and n.value is not None
+                                 and isinstance(n.targets[0] if isinstance(n, ast.Assign) else n.target, ast.Name)
+                                 and (n.targets[0] if isinstance(n, ast.Assign) else n.target).id == low.id]
+                        low = ldefs[0].value if len(ldefs) == 1 else None
+                    init_ok = out_ok = isinstance(low, ast.Subscript) and _tab(low.value) == names['least-significant'] and low is ls_uses[0] if len(ls_uses) == 1 else False
         else:
             outs = [c for c in ast.walk(scope) if isinstance(c, ast.Call) and isinstance(c.func, ast.Attribute) and c.func.attr == 'append'
                     and any(isinstance(x, ast.Name) and x.id == num for a in c.args for x in ast.walk(a))]
@@ -788,6 +839,47 @@ def digit_order(ctx, py: PyRepo, fn: ast.FunctionDef, names, cf):
            f'the U..Y digits are traversed {"left-to-right" if d[0] == "fwd" else "right-to-left"} while the exponent counts up from 0: '
            f'the digit next to the last letter must get weight 20*5^0 (e.g. UVA = 141 would decode as 221)', where,
            facts={'traversal': d, 'exponent': exp_dir})
+
+
+def _indexed_direction(cf, lp, word, ms_name):
+    """the high digits read by index: `for i in range(len(word) - 1): .. <ms>[word[IDX]] ..` with IDX linear in i.
+    IDX = -2 - i (or len(word) - 2 - i) walks from the letter next to the last one to the first: ('rev', True);
+    IDX = i walks the word without its last letter left to right: ('fwd', True); anything else is not judged here (None)."""
+    from .c16 import Lin, lin_index
+    i = lp.target.id
+    it = lp.iter
+    if it.keywords or len(it.args) not in (1, 2):
+        return None
+    try:
+        lo = Lin(0) if len(it.args) == 1 else lin_index(it.args[0], {})
+        hi = lin_index(it.args[-1], {})
+    except ValueError:
+        return None
+    L = f'#{word}'
+    covers = lo == Lin(0) and hi == Lin(-1, {L: 1})
+    env = {st.targets[0].id: st.value for st in lp.body if isinstance(st, ast.Assign) and len(st.targets) == 1 and isinstance(st.targets[0], ast.Name)}
+    uses = [n for n in ast.walk(lp) if isinstance(n, ast.Subscript) and _tab(n.value) == ms_name]
+    if len(uses) != 1:
+        return None
+    key = uses[0].slice
+    if isinstance(key, ast.Name) and key.id in env:
+        key = env[key.id]
+    if not (isinstance(key, ast.Subscript) and isinstance(key.value, ast.Name) and key.value.id == word):
+        return None
+    try:
+        idx = lin_index(key.slice, {})
+    except ValueError:
+        return None
+    d = None
+    if idx in (Lin(-2, {i: -1}), Lin(-2, {i: -1, L: 1})):
+        d = ('rev', True)
+    elif idx == Lin(0, {i: 1}):
+        d = ('fwd', True)
+    elif idx in (Lin(-1, {i: -1}), Lin(-1, {i: -1, L: 1})):
+        d = ('rev', False)
+    if d is None:
+        return None
+    return d + ((None if covers else f'range({lo}, {hi})'),)
 
 
 def database_ordered(fn: ast.FunctionDef, it):
@@ -855,6 +947,7 @@ def step_tokens(ctx, py: PyRepo, fn):
     proof string is cut into steps by a regular expression, the expression is read (re's own parser) and the high-digit part must be
     an unbounded repetition of exactly the high-digit letters, the final part exactly the low-digit letters; the loop form
     (accumulate letters until a final digit) has no such bound by construction."""
+    fn = _sums_as_loops(fn)
     try:
         import re._parser as sre_parse          # Python >= 3.11
     except ImportError:                          # pragma: no cover
@@ -1062,6 +1155,7 @@ def label_tokens(ctx, py: PyRepo, fn):
     """labels are registered under consecutive numbers; an empty token registered as a label shifts every number after it.
     `text.split(sep)` with an explicit separator yields [''] for empty text (and '' between doubled separators) - unlike
     `text.split()` - so a label list read that way must filter empty tokens (the empty list `( )` is a legal label list)."""
+    fn = _sums_as_loops(fn)
     n = 0
     for loop in [x for x in ast.walk(fn) if isinstance(x, ast.For)]:
         it = loop.iter
@@ -1126,6 +1220,7 @@ def scan_offsets(ctx, py: PyRepo, fn):
     character test; the position such a loop stops at is <lower> + k.  The chain must be: up to `(`; from just after it to the first
     non-blank; from THAT position to `)`; and what is handed back - where the step letters start - is the position just after the
     `)`.  Positions are compared as linear forms over the loop counters; instantiated only when the function has this shape."""
+    fn = _sums_as_loops(fn)
     from .c16 import Lin, lin_index
     m = 0
     for sc in [g for g in ast.walk(fn) if isinstance(g, ast.FunctionDef) and g is not fn]:
@@ -1156,8 +1251,16 @@ def scan_offsets(ctx, py: PyRepo, fn):
         rets = [r for r in ast.walk(sc) if isinstance(r, ast.Return) and r.value is not None]
         if len(scans) != 3 or len(rets) != 1 or len({b for _l, b, *_r in scans}) != 1:
             continue
+        rv = rets[0].value
+        if isinstance(rv, ast.Tuple):
+            # the offset handed back together with something else (`return labels, offset`): the component that is a position
+            counters = {k_ for _l, _b, _lo, k_, _c, _s in scans}
+            pos = [e for e in rv.elts if {x.id for x in ast.walk(e) if isinstance(x, ast.Name)} & counters]
+            if len(pos) != 1:
+                continue
+            rv = pos[0]
         try:
-            ret = lin_index(rets[0].value, {})
+            ret = lin_index(rv, {})
         except ValueError:
             continue
         m += 1
@@ -1270,15 +1373,210 @@ def steps_fresh_per_proof(ctx, py: PyRepo, fn, ci):
                f'every Proof built earlier shares it and shows the steps of the proof decoded last', py.where(MODULE, c))
 
 
+_VIEW = {}
+
+
+def _sums_as_loops(fn):
+    """_import_proof as the rules read it (a copy; a function none of this applies to is handed back as it is): every
+    `sum(<generator>)` of its nested functions written as the loop it abbreviates; a scan by position
+    (`for p in range(lo, len(S)): .. S[p] ..`) written as the scan over the characters (`for k, ch in enumerate(S[lo:])`), and a local
+    that only names the current character replaced by it."""
+    import copy
+    from ..core import pynormal as N
+    if id(fn) in _VIEW:
+        return _VIEW[id(fn)][1]
+    g = copy.deepcopy(fn)
+    k = 0
+    for sc in reversed([x for x in ast.walk(g) if isinstance(x, ast.FunctionDef)]):          # innermost first
+        k += N.sum_generator_to_loop(sc)
+        j = N.index_scan_to_enumerate(sc)
+        if j:
+            N.propagate_block_constants(sc)
+        k += j
+    out = g if k else fn
+    _VIEW[id(fn)] = (fn, out)
+    _VIEW[id(out)] = (out, out)
+    return out
+
+
+def _joined(fn):
+    """fn with the local helpers that return a value and are called once written out at their call (`x = h(..)`,
+    `a, b = h(..)`), single-use temporaries folded, displays unpacked and stable aliases substituted: the scan that collects the
+    labels and the loop that numbers them are then in one scope whether or not the project keeps them in one function"""
+    import copy
+    from ..core import pynormal as N
+    defs = {}
+    for g in ast.walk(fn):
+        if isinstance(g, ast.FunctionDef) and g is not fn:
+            defs.setdefault(g.name, []).append(g)
+    once = {}
+    for name, gs in defs.items():
+        calls = [c for c in ast.walk(fn) if isinstance(c, ast.Call) and isinstance(c.func, ast.Name) and c.func.id == name]
+        refs = [x for x in ast.walk(fn) if isinstance(x, ast.Name) and x.id == name]
+        if len(gs) == 1 and len(calls) == 1 and len(refs) == 1 and any(isinstance(r, ast.Return) and r.value is not None for r in ast.walk(gs[0])) \
+                and any(isinstance(x, ast.For) for x in ast.walk(gs[0])):
+            once[name] = gs[0]
+    if not once:
+        return fn
+    g = N.expand_assigned_calls(fn, lambda nm: once.get(nm), rounds=3)
+    gone = {nm for nm in once if not any(isinstance(c, ast.Call) and isinstance(c.func, ast.Name) and c.func.id == nm for c in ast.walk(g))}
+    if not gone:
+        return fn
+    for holder in ast.walk(g):
+        if isinstance(getattr(holder, 'body', None), list):
+            holder.body[:] = [x for x in holder.body if not (isinstance(x, ast.FunctionDef) and x.name in gone)] or [ast.Pass()]
+    for sc in [x for x in ast.walk(g) if isinstance(x, ast.FunctionDef)]:
+        for _ in range(3):
+            k = N.unpack_display_assign(sc)
+            N.fold_temporaries(ast.Module(body=[sc], type_ignores=[]))
+            k += N.unpack_display_assign(sc) + N.propagate_block_constants(sc)
+            if not k:
+                break
+    return ast.fix_missing_locations(g)
+
+
+def _collected_then_numbered(ctx, py, sc, inner) -> int:
+    """the two-phase spelling: a scan collects the listed labels in a list (`L.append(<label collected so far>)`), a later loop over
+    that list registers them.  The labels get consecutive numbers after the mandatory hypotheses iff the scan appends every label
+    once, in order, and the registering loop gives the i-th element the number len(T) + 1 + i."""
+    from ..core import astpaths as AP
+    n = 0
+    own = [x for x in ast.walk(sc) if id(x) not in inner]
+    for lp in [x for x in own if isinstance(x, ast.For)]:
+        apps = [c for c in ast.walk(lp) if isinstance(c, ast.Call) and isinstance(c.func, ast.Attribute) and c.func.attr in ('append', 'insert', 'appendleft')
+                and isinstance(c.func.value, ast.Name) and c.args and isinstance(c.args[-1], ast.Name)]
+        if len(apps) != 1:
+            continue
+        L, B = apps[0].func.value.id, apps[0].args[-1].id
+        if not any(isinstance(a, ast.AugAssign) and isinstance(a.target, ast.Name) and a.target.id == B and isinstance(a.op, ast.Add) for a in ast.walk(lp)):
+            continue
+        # the list is created empty before the scan, and apart from the append it is only iterated by the registering loop
+        inits = [a for a in own if isinstance(a, (ast.Assign, ast.AnnAssign)) and a.value is not None
+                 and isinstance(a.targets[0] if isinstance(a, ast.Assign) else a.target, ast.Name)
+                 and (a.targets[0] if isinstance(a, ast.Assign) else a.target).id == L]
+        uses = [x for x in own if isinstance(x, ast.Name) and x.id == L and isinstance(x.ctx, ast.Load) and x is not apps[0].func.value]
+        def plain(e):
+            # list(L) / tuple(L) / iter(L) / L[:] run over L in its order
+            while True:
+                if isinstance(e, ast.Call) and isinstance(e.func, ast.Name) and e.func.id in ('list', 'tuple', 'iter') and len(e.args) == 1 and not e.keywords:
+                    e = e.args[0]
+                elif isinstance(e, ast.Subscript) and isinstance(e.slice, ast.Slice) and e.slice.lower is None and e.slice.upper is None and e.slice.step is None:
+                    e = e.value
+                else:
+                    return e
+        regs = [f for f in own if isinstance(f, ast.For) and f is not lp and any(isinstance(x, ast.Name) and x.id == L for x in ast.walk(f.iter))]
+        if not regs and len(uses) == 1:
+            # the collected list is passed on under another name first (`M = sorted(L)`): the loop over M is judged on that expression
+            via = [a for a in own if isinstance(a, ast.Assign) and len(a.targets) == 1 and isinstance(a.targets[0], ast.Name)
+                   and any(uses[0] is x for x in ast.walk(a.value))]
+            if len(via) == 1:
+                M = via[0].targets[0].id
+                m_regs = [f for f in own if isinstance(f, ast.For) and f is not lp and any(isinstance(x, ast.Name) and x.id == M for x in ast.walk(f.iter))]
+                m_uses = [x for x in own if isinstance(x, ast.Name) and x.id == M and isinstance(x.ctx, ast.Load)]
+                if len(m_regs) == 1 and len(m_uses) == 1 and len([x for x in own if isinstance(x, ast.Name) and x.id == M and isinstance(x.ctx, ast.Store)]) == 1:
+                    import copy
+
+                    class _M(ast.NodeTransformer):
+                        def visit_Name(self, x):
+                            return copy.deepcopy(via[0].value) if x.id == M and isinstance(x.ctx, ast.Load) else x
+                    m_regs[0].iter = _M().visit(m_regs[0].iter)
+                    regs = m_regs
+        for f in regs:
+            f.iter = plain(f.iter)
+            if isinstance(f.iter, ast.Call) and isinstance(f.iter.func, ast.Name) and f.iter.func.id == 'enumerate' and f.iter.args:
+                f.iter.args[0] = plain(f.iter.args[0])
+        if len(inits) != 1 or not (isinstance(inits[0].value, ast.List) and not inits[0].value.elts) or len(regs) != 1 or len(uses) != 1:
+            continue
+        reg = regs[0]
+        body = [b for b in reg.body if not isinstance(b, ast.Pass)]
+        stores = [b for b in body if isinstance(b, ast.Assign) and len(b.targets) == 1 and isinstance(b.targets[0], ast.Subscript)
+                  and isinstance(b.targets[0].value, ast.Name)]
+        if len(stores) != 1:
+            continue
+        n += 1
+        where = py.where('metamath.converter.converter', reg)
+        T = stores[0].targets[0].value.id
+        key = stores[0].targets[0].slice
+        start = f'len({T}) + 1'
+
+        def is_start(e):
+            return isinstance(e, ast.BinOp) and isinstance(e.op, ast.Add) and sorted([ast.unparse(e.left), ast.unparse(e.right)]) == sorted([f'len({T})', '1'])
+        elem = idx = None
+        in_order = (isinstance(reg.iter, ast.Name) and reg.iter.id == L) or (
+            isinstance(reg.iter, ast.Call) and isinstance(reg.iter.func, ast.Name) and reg.iter.func.id == 'enumerate' and reg.iter.args
+            and isinstance(reg.iter.args[0], ast.Name) and reg.iter.args[0].id == L)
+        if isinstance(reg.iter, ast.Name) and isinstance(reg.target, ast.Name):
+            elem = reg.target.id
+        elif isinstance(reg.iter, ast.Call) and isinstance(reg.target, ast.Tuple) and len(reg.target.elts) == 2 \
+                and all(isinstance(t, ast.Name) for t in reg.target.elts):
+            idx, elem = reg.target.elts[0].id, reg.target.elts[1].id
+        ok_start = ok_step = False
+        found = ast.unparse(key)
+        if is_start(key) and len(body) == 1:
+            ok_start = ok_step = True                                  # T grows by one per iteration: len(T) + 1 is the next number
+        elif idx is not None and isinstance(key, ast.Name) and key.id == idx and len(body) == 1:
+            st_arg = reg.iter.args[1] if len(reg.iter.args) == 2 else next((k.value for k in reg.iter.keywords if k.arg == 'start'), None)
+            ok_start, ok_step = st_arg is not None and is_start(st_arg), True
+            found = f'enumerate(.., {ast.unparse(st_arg) if st_arg is not None else 0})'
+        elif isinstance(key, ast.Name) and len(body) == 2 and isinstance(body[1], ast.AugAssign) and body[0] is stores[0]:
+            K = key.id
+            kin = [a for a in own if isinstance(a, (ast.Assign, ast.AnnAssign)) and a.value is not None
+                   and isinstance(a.targets[0] if isinstance(a, ast.Assign) else a.target, ast.Name)
+                   and (a.targets[0] if isinstance(a, ast.Assign) else a.target).id == K]
+            ok_start = len(kin) == 1 and is_start(kin[0].value) and kin[0].lineno < reg.lineno \
+                and not any(isinstance(x, ast.Subscript) and isinstance(x.ctx, ast.Store) and isinstance(x.value, ast.Name) and x.value.id == T
+                            and kin[0].lineno < x.lineno < reg.lineno for x in own)
+            ok_step = isinstance(body[1].target, ast.Name) and body[1].target.id == K and isinstance(body[1].op, ast.Add) and ast.unparse(body[1].value) == '1'
+            found = ast.unparse(kin[0].value) if len(kin) == 1 else '?'
+        if not in_order and isinstance(reg.target, ast.Name):
+            elem = reg.target.id
+        ok_val = isinstance(stores[0].value, ast.Name) and stores[0].value.id == elem
+        ok_after = reg.lineno > lp.lineno or any(reg is x for x in sc.body[next((i for i, b in enumerate(sc.body) if any(lp is y for y in ast.walk(b))), 0) + 1:])
+        ctx.ob('hypothesis-order', 'label-numbering/starts-after-the-hypotheses', ok_start,
+               f'the listed labels are numbered from `{found}`; they must continue after the mandatory hypotheses already in `{T}` '
+               f'({start}), or every label number is off', where)
+        bad = []
+        if not ok_step:
+            bad.append('the number is not advanced by exactly one per listed label')
+        if not ok_val:
+            bad.append(f'`{ast.unparse(stores[0].value)}` is registered, not the listed label')
+        if not ok_after:
+            bad.append('the labels are registered before they are collected')
+        if not in_order:
+            bad.append(f'the labels are registered by a loop over `{ast.unparse(reg.iter)}`, not over the collected list `{L}` in the order listed')
+        if apps[0].func.attr != 'append' or len(apps[0].args) != 1:
+            bad.append(f'a label is collected with `{ast.unparse(apps[0])}`, not appended in the order listed')
+        for sp in AP.paths(lp.body):
+            if sp.end == 'raise':
+                continue
+            ap_at = [i for i, a in enumerate(sp.actions) if any(apps[0] is x for x in ast.walk(a))] if not isinstance(sp.actions, str) else []
+            resets = [i for i, a in enumerate(sp.actions) if isinstance(a, ast.Assign) and ast.unparse(a.targets[0]) == B
+                      and isinstance(a.value, ast.Constant) and a.value.value == '']
+            if len(ap_at) > 1:
+                bad.append('a label is collected twice')
+            if ap_at and sp.end != 'break' and not (resets and resets[-1] > ap_at[0]):
+                bad.append(f'`{B}` is not emptied after a label is collected')
+            if not ap_at and sp.end not in ('break', 'return') and not any(isinstance(a, ast.AugAssign) and isinstance(a.target, ast.Name)
+                                                                             and a.target.id == B for a in sp.actions) \
+                    and not any(c_.endswith('.isspace()') and b_ for c_, b_ in sp.conds):
+                bad.append(f'a character of a label is not added to `{B}`')
+        ctx.ob('hypothesis-order', 'label-numbering/consecutive', not bad,
+               'the listed labels must get consecutive numbers: ' + '; '.join(sorted(set(bad))), where)
+    return n
+
+
 def label_numbering(ctx, py: PyRepo, fn):
     """the labels listed in parentheses are numbered consecutively after the mandatory hypotheses: the loop that registers them
     (`T[k] = <label collected so far>`) starts at k = len(T) + 1, and every iteration that registers a label advances k by one and
     starts a new label; an iteration that registers nothing leaves k alone"""
+    fn = _sums_as_loops(fn)
     from ..core import astpaths as AP
     n = 0
+    fn = _joined(fn)
     scopes = [g for g in ast.walk(fn) if isinstance(g, ast.FunctionDef)]
     for sc in scopes:
         inner = {id(x) for g in ast.walk(sc) if isinstance(g, ast.FunctionDef) and g is not sc for x in ast.walk(g)}
+        n += _collected_then_numbered(ctx, py, sc, inner)
         for lp in [x for x in ast.walk(sc) if isinstance(x, ast.For) and id(x) not in inner]:
             stores = [st for st in ast.walk(lp) if isinstance(st, ast.Assign) and len(st.targets) == 1 and isinstance(st.targets[0], ast.Subscript)
                       and isinstance(st.targets[0].value, ast.Name) and isinstance(st.targets[0].slice, ast.Name) and isinstance(st.value, ast.Name)]
@@ -1334,6 +1632,7 @@ def run(ctx):
     ci = py.cls('MetamathConverter')
     fn = ci.methods.get('_import_proof')
     ctx.require(fn is not None, 'anchor vanished: MetamathConverter._import_proof')
+    fn = _sums_as_loops(fn)
     names, decoder = digit_tables(ctx, py, fn)
     digit_order(ctx, py, fn, names, decoder)
     numbering(ctx, py, fn, ci)
